@@ -536,7 +536,26 @@ func TestC12Soak(t *testing.T) {
 	c.Setup = []engine.Step{{K: engine.KMkdir, P: "d0"}, {K: engine.KMkdir, P: "u"}, {K: engine.KCreate, P: "d0/f"}, {K: engine.KCreate, P: "d0/g"}}
 	c.Steps = []engine.Step{{K: engine.KAdd, P: "d0"}, {K: engine.KFdchk}}
 	for i := 0; i < cycles; i++ {
-		switch i % 4 {
+		switch i % 5 {
+		case 4: // the path stays listed while it is replaced and re-added several times in a
+			// row, every old inode kept alive (hard link, then open descriptor)
+			c.Steps = append(c.Steps, engine.Step{K: engine.KCreate, P: "d0/h"}, engine.Step{K: engine.KAdd, P: "d0/h"})
+			for j := 0; j < 3; j++ {
+				keep := engine.P(fmt.Sprintf("u/keep-h%d", j))
+				if j%2 == 0 {
+					c.Steps = append(c.Steps, engine.Step{K: engine.KLink, P: "d0/h", Q: keep})
+				} else {
+					c.Steps = append(c.Steps, engine.Step{K: engine.KHold, P: "d0/h", N: 1})
+				}
+				c.Steps = append(c.Steps, engine.Step{K: engine.KUnlink, P: "d0/h"}, engine.Step{K: engine.KCreate, P: "d0/h"},
+					engine.Step{K: engine.KAdd, P: "d0/h"}, engine.Step{K: engine.KFdchk}, engine.Step{K: engine.KWrite, P: "d0/h", N: 1})
+				if j%2 == 0 {
+					c.Steps = append(c.Steps, engine.Step{K: engine.KUnlink, P: keep})
+				} else {
+					c.Steps = append(c.Steps, engine.Step{K: engine.KRelease, N: 1})
+				}
+			}
+			c.Steps = append(c.Steps, engine.Step{K: engine.KRemove, P: "d0/h"}, engine.Step{K: engine.KUnlink, P: "d0/h"})
 		case 0: // re-add of a path whose old inode is kept alive by a hard link
 			c.Steps = append(c.Steps, engine.Step{K: engine.KAdd, P: "d0/f"}, engine.Step{K: engine.KLink, P: "d0/f", Q: "u/keep"}, engine.Step{K: engine.KUnlink, P: "d0/f"},
 				engine.Step{K: engine.KCreate, P: "d0/f"}, engine.Step{K: engine.KAdd, P: "./d0/f"}, engine.Step{K: engine.KRemove, P: "d0/f"}, engine.Step{K: engine.KUnlink, P: "u/keep"})
